@@ -288,6 +288,10 @@ def _work_queue(max_groups, max_tasks, max_streams, max_orders, stride):
         for i, spec in enumerate(enumerate_graphs(max_groups, max_tasks, max_streams)):
             if (i // stride) % nshards != shard or i % stride:
                 continue
+            if ctx.out_of_time():
+                all_exhausted = False
+                ctx.notes[f"stopped_by_budget_at_graph_shard{shard}"] = i
+                break
             vs, n, traces, exhausted = eval_graph(spec, max_orders)
             total += 1
             all_exhausted = all_exhausted and exhausted
